@@ -256,36 +256,81 @@ Definition dec_text (v : Z) : list Z :=             (* what %d prints *)
   | None => []
   end.
 
+(* one operation from the front of the case; None = end / not an operation *)
+Definition decode1 (l : list Z) : option (op * list Z) :=
+  match l with
+  | 1 :: r => let '(d, r') := take r in Some (OBytes d, r')
+  | 2 :: r => let '(d, r') := take r in Some (OCstr d, r')
+  | 3 :: n :: c :: r => Some (OFill (n mod two64) (c mod 256), r)
+  | 4 :: v :: r => Some (ONum (v mod two64) (0 <=? v), r)
+  | 5 :: v :: r => Some (ONum (v mod two64) true, r)
+  | 6 :: r =>
+      let '(pre, r1) := take r in
+      match r1 with
+      | 0 :: r2 => Some (OFormat pre None, r2)
+      | 1 :: r2 => let '(a, r3) := take r2 in let '(suf, r4) := take r3 in
+                   Some (OFormat pre (Some (cut0 a ++ suf)), r4)
+      | 2 :: v :: r2 => let '(suf, r3) := take r2 in
+                   Some (OFormat pre (Some (dec_text (sx32 v) ++ suf)), r3)
+      | 3 :: r2 => let '(suf, r3) := take r2 in Some (OFormat pre (Some (37 :: suf)), r3)
+      | 4 :: c :: r2 => let '(suf, r3) := take r2 in Some (OFormat pre (Some ((c mod 256) :: suf)), r3)
+      | _ => None
+      end
+  | 7 :: n :: c :: r => Some (OResize (n mod two64) (c mod 256), r)
+  | 8 :: r => Some (OClear, r)
+  | _ => None
+  end.
+
 Fixpoint decode_ops (fuel : nat) (l : list Z) : list op :=
   match fuel with
   | O => []
-  | S f =>
-      match l with
-      | 1 :: r => let '(d, r') := take r in OBytes d :: decode_ops f r'
-      | 2 :: r => let '(d, r') := take r in OCstr d :: decode_ops f r'
-      | 3 :: n :: c :: r => OFill (n mod two64) (c mod 256) :: decode_ops f r
-      | 4 :: v :: r => ONum (v mod two64) (0 <=? v) :: decode_ops f r
-      | 5 :: v :: r => ONum (v mod two64) true :: decode_ops f r
-      | 6 :: r =>
-          let '(pre, r1) := take r in
-          match r1 with
-          | 0 :: r2 => OFormat pre None :: decode_ops f r2
-          | 1 :: r2 => let '(a, r3) := take r2 in let '(suf, r4) := take r3 in
-                       OFormat pre (Some (cut0 a ++ suf)) :: decode_ops f r4
-          | 2 :: v :: r2 => let '(suf, r3) := take r2 in
-                       OFormat pre (Some (dec_text (sx32 v) ++ suf)) :: decode_ops f r3
-          | 3 :: r2 => let '(suf, r3) := take r2 in OFormat pre (Some (37 :: suf)) :: decode_ops f r3
-          | 4 :: c :: r2 => let '(suf, r3) := take r2 in OFormat pre (Some ((c mod 256) :: suf)) :: decode_ops f r3
-          | _ => []
-          end
-      | 7 :: n :: c :: r => OResize (n mod two64) (c mod 256) :: decode_ops f r
-      | 8 :: r => OClear :: decode_ops f r
-      | _ => []
-      end
+  | S f => match decode1 l with Some (o, r) => o :: decode_ops f r | None => [] end
+  end.
+
+(* ---- appends whose SOURCE is the builder's own current text ----
+   sb.append(sb.c_str() + off, n) / sb.append(sb.toSpan().first + off, n) / sb.append(sb.c_str() + off):
+   the argument is a pointer into the text the builder reports at the moment of the call.  An append has VALUE
+   semantics: what is appended are the bytes the argument denotes when the call is made, wherever they are stored -
+   so the operation is the plain append of that slice of the current text (resolve).  off and n are clamped to the
+   text by the caller (a pointer outside [c_str(), c_str()+size()] would not be the builder's text); suffix/slice clamp
+   in the same way. *)
+Inductive xop := XOp (o : op) | XSelf (off n : Z) | XSelfC (off : Z).
+(* clamped before Z.to_nat, so that an absurd offset / length in a case never builds a huge unary number *)
+Definition suffix (t : list Z) (off : Z) : list Z := zskipn (Z.min off (len t)) t.
+Definition slice (t : list Z) (off n : Z) : list Z := zfirstn (Z.min n (len t)) (suffix t off).
+Definition resolve (s : st) (x : xop) : op :=
+  match x with
+  | XOp o => o
+  | XSelf off n => OBytes (slice (c_text s) off n)          (* append(c_str() + off, n) *)
+  | XSelfC off => OCstr (suffix (c_text s) off)             (* append(c_str() + off): up to the first NUL *)
+  end.
+
+Fixpoint run_xops (s : st) (xs : list xop) : list Z * st :=
+  match xs with
+  | [] => ([], s)
+  | x :: r => let '(e, s1) := step s (resolve s x) in
+              let '(out, s2) := run_xops s1 r in (observe e s1 ++ out, s2)
+  end.
+
+Definition run_x (k cap : Z) (ini : list Z) (xs : list xop) : list Z :=
+  let s := init k cap ini in
+  observe 0 s ++ fst (run_xops s xs).
+
+(* 9 m off n : m = 2 the C-string flavour (n ignored), every other m a (pointer, length) flavour *)
+Definition decode1x (l : list Z) : option (xop * list Z) :=
+  match l with
+  | 9 :: m :: off :: n :: r => Some ((if m =? 2 then XSelfC off else XSelf off n), r)
+  | _ => match decode1 l with Some (o, r) => Some (XOp o, r) | None => None end
+  end.
+
+Fixpoint decode_xops (fuel : nat) (l : list Z) : list xop :=
+  match fuel with
+  | O => []
+  | S f => match decode1x l with Some (x, r) => x :: decode_xops f r | None => [] end
   end.
 
 Definition run_case (c : list Z) : list Z :=
   match c with
-  | k :: cap :: r => let '(ini, r') := take r in run k cap ini (decode_ops (length r') r')
+  | k :: cap :: r => let '(ini, r') := take r in run_x k cap ini (decode_xops (length r') r')
   | _ => []
   end.
